@@ -128,6 +128,13 @@ def check_enum(ctx, case):
         _pair(ctx, centre, runs, c2, runs2, kind)
 
 
+class _Scheme(object):
+    """stands for a scheme object (groups only keep a reference to it)"""
+
+
+_SCHEMES = (_Scheme(), _Scheme())
+
+
 def _pair(ctx, c1, runs1, c2, runs2, kind):
     m = _pg()
     Group, GroupLibrary = m['Group'], m['GroupLibrary']
@@ -164,6 +171,13 @@ def _pair(ctx, c1, runs1, c2, runs2, kind):
             bad('constructor-iterable:%s' % form, 'Group(%r, <%s of %r>) = %r, from the list %r' % (c1, form, p1, G, A))
     if src != list(p1):
         bad('constructor-changes-callers-list', 'the list %r given to Group() is now %r' % (p1, src))
+    # which scheme object a group was built for plays no part: two groups made for two different scheme objects are the same
+    # group exactly when centre and peripherals say so
+    S1, S2 = _SCHEMES
+    As, Bs = Group(S1, c1, list(p1)), Group.parse(S2, t2)
+    if (As == Bs) != model_eq or (Bs == As) != model_eq or (As != Bs) == model_eq or (model_eq and hash(As) != hash(Bs)) \
+            or ({As: 1}.get(Bs) == 1) != model_eq or not (As == A and A == As):
+        bad('groups-of-different-scheme-objects', 'Group(scheme1, ...) == Group(scheme2, ...) is %r, model says %r' % (As == Bs, model_eq))
     for X, Y in ((A, B), (B, A), (A2, B2)):
         if (X == Y) != model_eq:
             bad('eq', '(a==b) is %r, model says %r; names %r %r' % (X == Y, model_eq, X.name, Y.name))
@@ -197,7 +211,7 @@ def _pair(ctx, c1, runs1, c2, runs2, kind):
         bad('library-lookup', 'library does not find its own key %r' % A.name)
     # a library FILE that lists both names: one entry twice (refused) exactly when the two are the same group, two entries
     # otherwise (sampled: every 40th pair, files are slow)
-    if t1 != t2 and sum(map(ord, t1 + '|' + t2)) % 40 == 0 and "'" not in t1 + t2:
+    if t1 != t2 and sum(map(ord, t1 + '|' + t2)) % 40 == 0 and "'" not in t1 + t2 and max(len(t1), len(t2)) <= 200:   # (YAML keys end at 1024 characters)
         from vlib import libgen as LG
         text = ("groups:\n    '%s':\n        'thermochem':\n            T_ref: 298.15 K\n            ND_H_ref: 1.5\n"
                 "    '%s':\n        'thermochem':\n            T_ref: 298.15 K\n            ND_S_ref: 2.5\n" % (t1, t2))
